@@ -2299,3 +2299,218 @@ func zeroDelayHonoured(c *Ctx, rule string) {
 	c.Check(good, rule, "max-retry-delay:zero-is-kept", p.InstrPos(cfgStore), "after the configuration was read the default replaces only a negative value",
 		"the manifest replaces a configured maximum retry delay of 0 by the default ("+where+"): with lfs.transfer.maxretrydelay=0 (documented: no delays between retries) retries still back off up to ten seconds, beyond the configured maximum")
 }
+
+// ---- round 5 ------------------------------------------------------------------------------------------------
+
+// lfsStorageUnderCommonDir (C01): all worktrees of a repository share one object store. fs.New resolves the
+// git directory through `commondir` (resolveGitStorageDir) and a relative lfs directory is joined to THAT
+// directory — joined to the raw git dir, a linked worktree gets a private store, and what clean stored there is
+// not found when the pointer is smudged anywhere else.
+func lfsStorageUnderCommonDir(c *Ctx, rule string) {
+	p := c.P
+	fn := p.Fn("fs", "New")
+	if fn == nil {
+		c.Missing(rule, "fs.New", "not found")
+		return
+	}
+	n := 0
+	for _, b := range fn.Blocks {
+		for _, in := range b.Instrs {
+			st, ok := in.(*ssa.Store)
+			if !ok {
+				continue
+			}
+			fa, ok := st.Addr.(*ssa.FieldAddr)
+			if !ok {
+				continue
+			}
+			if tn, f := fieldAddrName(fa); tn != "fs.Filesystem" || f != "LFSStorageDir" {
+				continue
+			}
+			jc, _, isCall := CallResult(st.Val)
+			if !isCall || CalleeName(jc.Common()) != "path/filepath.Join" {
+				continue // the absolute directory given by the caller
+			}
+			n++
+			els := variadicOrdered(jc.Call.Args[0])
+			good := false
+			if len(els) > 0 && els[0] != nil {
+				if IsLoadOfField(els[0], "fs.Filesystem", "GitStorageDir") {
+					good = true
+				}
+				if cc, _, ok := CallResult(els[0]); ok && CalleeName(cc.Common()) == "fs.resolveGitStorageDir" {
+					good = true
+				}
+			}
+			c.Check(good, rule, "lfs-storage:relative-to-common-git-dir", p.InstrPos(st), "a relative lfs directory is joined to the resolved (common) git directory",
+				"the LFS storage directory is not derived from the git directory resolved through `commondir`: in a linked worktree objects are stored in (and looked up from) a private store, so a pointer created there cannot be smudged from the repository's other worktrees")
+		}
+	}
+	c.AtLeast(rule, "relative LFS storage directories computed in fs.New", n, 1)
+}
+
+// filterStatusReportsCommandError (C01, C14): in the long-running filter the status line that follows the
+// content is the only way Git learns that a smudge or clean failed after output started. After the content was
+// flushed successfully the status is computed from the command's own error; the flush error only takes its place
+// when flushing failed.
+func filterStatusReportsCommandError(c *Ctx, rule string) {
+	p := c.P
+	fn := p.Fn("commands", "filterCommand")
+	if fn == nil {
+		c.Missing(rule, "commands.filterCommand", "not found")
+		return
+	}
+	n := 0
+	for _, ci := range CallsIn(fn, "(*github.com/git-lfs/pktline.PktlineWriter).Flush") {
+		fl, ok := ci.(*ssa.Call)
+		if !ok {
+			continue
+		}
+		n++
+		var nilSucc *ssa.BasicBlock
+		for _, b := range fn.Blocks {
+			ifi, ok := lastInstr(b).(*ssa.If)
+			if !ok {
+				continue
+			}
+			if e, trueMeansNil, ok := IsErrNilCheck(ifi.Cond); ok && ResultOfCall(e, fl, 0) {
+				if trueMeansNil {
+					nilSucc = b.Succs[0]
+				} else {
+					nilSucc = b.Succs[1]
+				}
+			}
+		}
+		good := false
+		if nilSucc != nil {
+			for _, sc := range CallsIn(fn, "commands.statusFromErr") {
+				arg := sc.Common().Args[0]
+				if ResultOfCall(arg, fl, 0) {
+					continue
+				}
+				if nilSucc.Dominates(sc.Block()) {
+					good = true
+				}
+			}
+		}
+		c.Check(good, rule, "filter-process:status-after-flush-is-the-command's", p.InstrPos(fl), "after a successful flush the status comes from the command's own error",
+			"after the content was flushed the status sent to Git does not come from the clean/smudge command's own error: a smudge that failed after output started is reported as success and Git writes a truncated or empty file")
+	}
+	c.AtLeast(rule, "flushes in filterCommand", n, 1)
+}
+
+// hardLinksOnlyInLinkOrCopy (C02, C09): a file that is being written or has been verified must have exactly
+// one name until it is published by rename. Hard links give a second name to the same bytes: a later write
+// through the other name changes the published object in place, before any hash is checked. The only function
+// that may create links is lfs.LinkOrCopy (reference-store sharing of complete, already verified objects).
+func hardLinksOnlyInLinkOrCopy(c *Ctx, rule string) {
+	p := c.P
+	n := 0
+	for _, fn := range p.RepoFuncs(productPkg) {
+		for _, ci := range CallsIn(fn, "os.Link", "os.Symlink", "syscall.Link", "golang.org/x/sys/unix.Link") {
+			n++
+			root := fn
+			for root.Parent() != nil {
+				root = root.Parent()
+			}
+			c.Check(FnName(root) == "lfs.LinkOrCopy", rule, "link-site:"+FnName(root), p.InstrPos(ci), "links are created only by lfs.LinkOrCopy",
+				FnName(root)+" creates a hard or symbolic link: a temporary download or a stored object gets a second name, and a write through one name (a later resume truncating the partial file) alters the verified object under the other")
+		}
+	}
+	c.AtLeast(rule, "link creation sites", n, 1)
+}
+
+// exactRefNameMatch (C03): a remote-tracking ref is used as an "already on the server" boundary of the push scan
+// only if a ref of exactly that name still exists on the remote. The names put into the set and looked up in it
+// are the refs' Name fields as they are — no case folding or trimming (ref names are case-sensitive; a stale
+// `Topic` must not be vouched for by a live `topic`).
+func exactRefNameMatch(c *Ctx, rule string) {
+	p := c.P
+	fn := p.Fn("lfs", "calcSkippedRefs")
+	if fn == nil {
+		c.Missing(rule, "lfs.calcSkippedRefs", "not found")
+		return
+	}
+	n := 0
+	for _, f := range WithAnon(fn) {
+		for _, ci := range CallsIn(f, "(tools.StringSet).Add", "(tools.StringSet).Contains", "slices.Contains") {
+			a := CallArgs(ci.Common())
+			n++
+			v := a[len(a)-1]
+			if vs := variadicOrdered(v); len(vs) == 1 && vs[0] != nil {
+				v = vs[0]
+			}
+			c.Check(IsLoadOfField(v, "git.Ref", "Name"), rule, "skipped-refs:exact-name#"+itoa(n), p.InstrPos(ci), "the set holds and is asked for ref names as they are",
+				"calcSkippedRefs compares remote ref names after transforming them ("+CalleeNameOfValue(v)+"): a remote-tracking ref whose branch was deleted on the server is still trusted as already-pushed history, and the objects only it reaches are never uploaded")
+		}
+		for _, b := range f.Blocks {
+			for _, in := range b.Instrs {
+				if bo, ok := in.(*ssa.BinOp); ok && (bo.Op == token.EQL || bo.Op == token.NEQ) && short(bo.X.Type().String()) == "string" {
+					if IsLoadOfField(bo.X, "git.Ref", "Name") != IsLoadOfField(bo.Y, "git.Ref", "Name") {
+						if _, isC := ConstString(bo.X); isC {
+							continue
+						}
+						if _, isC := ConstString(bo.Y); isC {
+							continue
+						}
+						n++
+						c.Bad(rule, "skipped-refs:exact-name#"+itoa(n), p.InstrPos(bo), "calcSkippedRefs compares a ref name with a transformed name")
+					}
+				}
+			}
+		}
+	}
+	c.AtLeast(rule, "ref-name set operations in calcSkippedRefs", n, 2)
+}
+
+// CalleeNameOfValue names the call a value results from (for messages).
+func CalleeNameOfValue(v ssa.Value) string {
+	if cc, _, ok := CallResult(v); ok {
+		return CalleeName(cc.Common())
+	}
+	return "not the Name field"
+}
+
+// delayedPointersSurviveRounds (C04, C14): the filter process remembers the pointer of every blob it delayed
+// until Git asks for that blob's content; a failed download is announced as available as well, and the retry
+// happens when Git then sends the content-less smudge request. The map of remembered pointers is therefore
+// created once, before the request loop, and entries leave it only one by one (delete) — never by replacing or
+// clearing the map between rounds, which turns the next content-less request into "smudge of an empty pointer".
+func delayedPointersSurviveRounds(c *Ctx, rule string) {
+	p := c.P
+	fn := p.Fn("commands", "filterCommand")
+	if fn == nil {
+		c.Missing(rule, "commands.filterCommand", "not found")
+		return
+	}
+	var makes []*ssa.MakeMap
+	for _, b := range fn.Blocks {
+		for _, in := range b.Instrs {
+			if mm, ok := in.(*ssa.MakeMap); ok && short(mm.Type().String()) == "map[string]*lfs.Pointer" {
+				makes = append(makes, mm)
+			}
+		}
+	}
+	loops := Loops(fn)
+	good, why := len(makes) == 1, ""
+	if len(makes) != 1 {
+		why = itoa(len(makes)) + " maps of delayed pointers are created"
+	} else if LoopOf(loops, makes[0].Block()) != nil {
+		good, why = false, "the map is created inside the request loop"
+	}
+	for _, b := range fn.Blocks {
+		for _, in := range b.Instrs {
+			if cc, ok := in.(*ssa.Call); ok {
+				if bi, isB := cc.Call.Value.(*ssa.Builtin); isB && bi.Name() == "clear" && short(cc.Call.Args[0].Type().String()) == "map[string]*lfs.Pointer" {
+					good, why = false, "the map is cleared"
+				}
+			}
+		}
+	}
+	pos := "-"
+	if len(makes) > 0 {
+		pos = p.InstrPos(makes[0])
+	}
+	c.Check(good, rule, "filter-process:delayed-pointers-kept-across-rounds", pos, "one map of delayed pointers, created before the request loop, entries removed singly",
+		"the pointers remembered for delayed blobs do not survive from one list_available_blobs round to the next ("+why+"): a blob whose download failed is announced, Git asks for it, and the filter smudges an empty pointer — an empty file is written with status success")
+}
